@@ -111,6 +111,23 @@ def storeStep (w : StWorld) (ws : List String) : StWorld × String :=
   | ["open", kind, sid] => (match storeOpen w kind sid with
       | some r => r
       | none => (w, "bad-op"))
+  | "sqlinter" :: _ :: _ :: rest =>
+      -- `sqlinter <sid> <k> <op1> / <op2>`: op2 (what another goroutine of the engine does on the same store) runs to completion
+      -- while op1 is about to execute its k-th SQL statement.  The pairs generated are a target-side op against a sender-side op
+      -- (the engine's event loop against a sending application goroutine): they touch different columns and different cache
+      -- fields, so the outcome is that of running them one after the other — op2, then op1, whose observation is reported.
+      (match rest.span (· != "/") with
+       | (o1, _ :: o2) =>
+         (match parseStoreOp o1, parseStoreOp o2 with
+          | some (sid1, a), some (sid2, b) =>
+            if sid1 ≠ sid2 then (w, "bad-op") else
+            (match storeApply w sid2 b with
+             | some (w1, _) => (match storeApply w1 sid1 a with
+                                | some r => r
+                                | none => (w, "bad-op"))
+             | none => (w, "bad-op"))
+          | _, _ => (w, "bad-op"))
+       | _ => (w, "bad-op"))
   | _ => match parseStoreOp ws with
       | some (sid, o) => (match storeApply w sid o with
           | some r => r
